@@ -97,7 +97,8 @@ def impl(case):
             mh.md.dynamical_coring(data, tau, iterative=it)
         except Exception:  # noqa
             pass
-    r = mh.md.dynamical_coring(data, case['lag'], iterative=case['iter'])
+    lag = __import__('numpy').dtype(case['lagtype']).type(case['lag']) if case.get('lagtype') else case['lag']
+    r = mh.md.dynamical_coring(data, lag, iterative=case['iter'])
     out = tolists(r.trajs)
     res = {'ok': out, 'ntrajs': int(r.ntrajs)}
     # coring the cored result again
